@@ -85,6 +85,9 @@ class SymMatrix:
             self.data = _np.asarray(data, dtype=object)
         else:
             data, indices, indptr = arg
+            # scipy (copy=False): index arrays that already have the index dtype (int32 at these sizes) are *shared* with
+            # the caller, others are converted (copied); in-place operations of the matrix write through the shared ones
+            self._alias = [a if (isinstance(a, _np.ndarray) and a.dtype == _np.int32) else None for a in (indices, indptr)]
             indptr = _np.asarray(indptr).astype(int)
             rows = _np.repeat(_np.arange(len(indptr) - 1), _np.diff(indptr))
             self._rows = rows.astype(int)
@@ -114,6 +117,15 @@ class SymMatrix:
         self._rows = _np.array([k[0] for k in order], dtype=int)
         self._cols = _np.array([k[1] for k in order], dtype=int)
         self.data = data
+        # scipy's csr_sum_duplicates compacts the stored arrays in place before they are trimmed: arrays shared with the
+        # caller (see __init__) keep the compacted content
+        ali, alp = getattr(self, "_alias", [None, None])
+        if ali is not None:
+            ali[:len(self._cols)] = self._cols
+        if alp is not None and self.shape is not None:
+            cnt = _np.bincount(self._rows, minlength=self.shape[0])
+            alp[1:] = _np.cumsum(cnt)
+        self._alias = [None, None]
 
     def eliminate_zeros(self):
         """scipy: stored entries that are exactly zero are removed (structure and data shrink together)"""
